@@ -74,15 +74,18 @@ def run(case, bct, REC):
     n = len(A)
     for sc in case['schemes']:
         L = G.weigh(A, sc, case['ws'], symmetric=not directed)
+        fo = O.betweenness if n <= 12 else O.betweenness_fast
         if sc in ('real', 'logu'):
-            # a tie in real lengths can only be a rounding artefact: keep only matrices where every shortest path
-            # is unique and no near-tie exists
-            BC0, EBC0, D0, sg0 = (O.betweenness if n <= 12 else O.betweenness_fast)(L, rtol=1e-9)
-            if not tie_free(L) or (sg0[np.isfinite(D0)] > 1).any():
-                REC.tag(PROP, 'real_with_near_tie_skipped')
+            # inexact lengths: the oracle decides "equal length" with a relative tolerance; the matrix is judged only
+            # if the counts are the same for a few-ulp tolerance and for 1e-9 (no near-tie anywhere, every shortest
+            # path unique) -- otherwise which paths "tie" would be a matter of rounding on both sides
+            lo = fo(L, rtol=1e-13)
+            hi = fo(L, rtol=1e-9)
+            if not (np.array_equal(lo[0], hi[0]) and np.array_equal(lo[1], hi[1])) or (hi[3][np.isfinite(hi[2])] > 1).any():
+                REC.tag(PROP, 'inexact_lengths_with_near_tie_skipped')
                 continue
         REC.tag(PROP, 'exec')
-        BC, EBC, D, sg = (O.betweenness if n <= 12 else O.betweenness_fast)(L, rtol=1e-9 if sc in ('real', 'logu') else 0.0)
+        BC, EBC, D, sg = fo(L, rtol=1e-9 if sc in ('real', 'logu') else 0.0)
         off = ~np.eye(n, dtype=bool)
         fin = np.isfinite(D) & off
         det = {'L': L}
